@@ -313,6 +313,12 @@ func (g *genCtx) fillLinks(root *Node) {
 			}
 		case k < 5:
 			t = common.Pick(r, []string{"missing", "no/such/file", "./x", "a//b", "a/./b", "x/", "..x", "..a/b", "a/..b", "...", ".../x", "./..data"})
+		case k < 6 && r.Chance(1, 2): // long and non-ASCII targets (PAX linkpath records)
+			t = common.Pick(r, []string{"", "../", "./"}) + strings.Repeat(common.Pick(r, []string{"l", "ü", "日"}), 60+r.Intn(120)) + common.Pick(r, []string{"", "/x", "/..y"})
+			if strings.HasPrefix(t, "../") && depth == 0 {
+				t = t[3:]
+			}
+			run.Count("link-target>100")
 		case k < 6:
 			t = "."
 		case k < 7 && depth > 0:
@@ -779,9 +785,7 @@ func linkClass(root *Node, name string) string {
 			if linkAt[strings.Join(stack[:i], "\x00")] {
 				class = "through"
 			}
-			if i < len(stack)-1 && fileAt[strings.Join(stack[:i], "\x00")] {
-				class = "through"
-			}
+			_ = fileAt // a target may pass through a regular file: nothing exists there, the link is dangling
 		}
 	})
 	return class
@@ -1349,8 +1353,15 @@ func runScenarioInner(sc *Scenario) {
 		case worst == "through" && strings.Contains(msg, "no symbolic link allowed"):
 			fail(scid, "link-through-link-rejected", "a tree whose relative links all stay inside was refused because one target passes through another link that had been extracted before it: "+msg)
 			return
-		case worst == "through" && (strings.Contains(msg, "not a directory") || strings.Contains(msg, "too many levels")):
-			fail(scid, "link-through-file-rejected", "a tree whose relative links all stay inside was refused because one (dangling) target passes through a regular file or through itself: "+msg)
+		case worst == "through" && strings.Contains(msg, "too many levels"):
+			// the other link is the link itself (l -> l/a: ELOOP from the Lstat walk): same mechanism
+			fail(scid, "link-through-link-rejected", "a tree whose relative links all stay inside was refused because one target passes through a link that points through itself: "+msg)
+			return
+		case strings.Contains(msg, "not a directory") && strings.Contains(msg, "lstat"):
+			fail(scid, "link-through-file-rejected", "a (dangling) link target that passes through a regular file was refused: "+msg)
+			return
+		case strings.Contains(msg, "file name too long") && strings.Contains(msg, "lstat"):
+			fail(scid, "link-target-name-too-long", "a (dangling) link target with a component longer than NAME_MAX was refused: "+msg)
 			return
 		case ownerBits && strings.Contains(msg, "permission denied"):
 			// the umask takes the owner's own write/search permission from every new directory
@@ -2139,7 +2150,7 @@ func main() {
 		"tree-links=outside", "tree-with-setuid/setgid/sticky", "foreign=OK", "foreign=ERR reject", "unpack-good=OK",
 		"unpack-wrong-checksum=ERR", "unpack-wrong-digest=ERR", "direct-push-compared", "skipunpack-blob", "forceCAS-deduped",
 		"dotdot-name: f", "dotdot-name: d", "dotdot-name: l", "dotdot-name: hard link", "dotdot-target",
-		"filesize>=1MiB", "name>100", "name-nonascii", "nonroot: copy-in=OK", "nonroot: item=dir"} {
+		"filesize>=1MiB", "name>100", "link-target>100", "name-nonascii", "nonroot: copy-in=OK", "nonroot: item=dir"} {
 		if run.Dist[k] == 0 {
 			missing = append(missing, k)
 		}
